@@ -20,7 +20,8 @@ RULE = ("(meta) generated metadata: 1..384 sites selected on the NP1 / NP2 / NP2
         "enumerated exhaustively. (header) trace_header / split_trace_header for the four dense layouts == reference. "
         "Non-trivial = non-monotone channel order with >= 2 shanks or a non-dense selection. Distinct = case hash.")
 EXHAUSTIVE_NOTE = "grid inverses (4 versions x 1280 rows x all columns) and the 4 dense trace headers are enumerated completely"
-ASSUMPTIONS = ["saved-channel subsets are prefixes of the acquired channels (position == original channel number)",
+ASSUMPTIONS = ["saved-channel subsets are contiguous ranges first..first+n-1 of the acquired channels; metadata lists sites of "
+               "the saved channels only and the IMRO table of all acquired channels",
                "NPultra has no snsGeomMap case (outside the property's quantifier)"]
 BUDGET = {"quick": 2500, "thorough": 100000}
 KEYS = ("x", "y", "row", "col", "shank", "adc", "sample_shift", "ind")
@@ -47,8 +48,18 @@ def enum_cases(desc):
 
 
 def strategy(tier):
-    spec = gm.st_spec(allow_nosync=True, ns_range=(1, 1000))
+    spec = gm.st_spec(allow_nosync=True, ns_range=(1, 1000), allow_offset=True)
     return st.builds(lambda s, sh: {"mode": "meta", "spec": s, "child_pick": sh}, spec, st.integers(0, 3))
+
+
+def known_non_prefix_adc(case, f):
+    """ADC group / sampling delay taken by file position instead of the original channel number, visible only when the
+    saved channels are not a prefix of the acquired ones."""
+    return (case.get("mode") == "meta" and case["spec"].get("first_chan", 0) > 0
+            and f.kind.startswith("C08.") and f.kind.rsplit(".", 1)[-1] in ("adc", "sample_shift"))
+
+
+KNOWN = {"non_prefix_subset_adc": known_non_prefix_adc}
 
 
 def _cmp_geom(ctx, kind, got, exp, keys=KEYS):
@@ -131,6 +142,8 @@ def _run_meta(case, ctx):
     gen = spec["gen"]
     sites = gm.sites_of(spec)
     ctx.label(gen, "enc_" + spec["enc"], "pat_" + spec["pattern"])
+    if spec.get("first_chan", 0) > 0:
+        ctx.label("non_prefix_subset")
     with rec.scratch_dir(ctx) as d:
         p = d / "a.ap.meta"
         p.write_text(gm.build_text(spec))
